@@ -413,6 +413,8 @@ def encode_data_record(lr_type, indirect, frames):
 
 X_UNITS = [b'FEET', b'M   ', b'.1IN', b'INCH', b'S   ', b'MS  ']
 #: ... and unit mnemonics that the LIS unit table of the package does not hold (vendor spellings, blank): legal in a file
+#: (frame spacing units, X axis units, X axis units per spacing unit)
+SPACING_PAIRS = [(b'INCH', b'.1IN', 10), (b'IN  ', b'.1IN', 10), (b'FEET', b'INCH', 12), (b'FEET', b'.1IN', 120)]
 X_UNITS_WITH_UNKNOWN = X_UNITS + [b'SEC ', b'MTR ', b'HRS ', b'DEG ']
 
 
@@ -457,7 +459,7 @@ def safe_words(draw, rc, n):
 
 
 @st.composite
-def log_passes(draw, max_channels=6, max_frames=60, allow_dipmeter=True, x_units=None):
+def log_passes(draw, max_channels=6, max_frames=60, allow_dipmeter=True, x_units=None, spacing_pairs=False):
     """One log pass: DFSR model + frames (raw words) + frames-per-record pattern."""
     indirect = draw(st.booleans())
     xs = draw(x_axis_specs())
@@ -494,11 +496,19 @@ def log_passes(draw, max_channels=6, max_frames=60, allow_dipmeter=True, x_units
     if depth_rc == 73 and (xs['spacing'] != int(xs['spacing']) or xs['x0'] != int(xs['x0'])):
         depth_rc = 68
     units = draw(st.sampled_from(x_units or X_UNITS))
+    spacing_units, x_step = units, xs['spacing']
+    if indirect and spacing_pairs and draw(st.integers(0, 3)) == 0:
+        # frame spacing declared in other units than the X axis (entry block 9 != entry block 14): the step between frames,
+        # in X axis units, is the declared spacing converted
+        spacing_units, units, factor = draw(st.sampled_from(SPACING_PAIRS))
+        x_step = xs['spacing'] * factor
+        if depth_rc == 73 and x_step != int(x_step):
+            depth_rc = 68
     blocks = [{'type': 1, 'size': 1, 'rc': 66, 'value': draw(st.sampled_from([0, 0, 1]))},
               {'type': 4, 'size': 1, 'rc': 66, 'value': xs['up_down']},
               {'type': 12, 'size': 4, 'rc': 68, 'value': -999.25}]
     if indirect:
-        blocks += [{'type': 8, 'size': 4, 'rc': 68, 'value': float(xs['spacing'])}, {'type': 9, 'size': 4, 'rc': 65, 'value': units},
+        blocks += [{'type': 8, 'size': 4, 'rc': 68, 'value': float(xs['spacing'])}, {'type': 9, 'size': 4, 'rc': 65, 'value': spacing_units},
                    {'type': 13, 'size': 1, 'rc': 66, 'value': 1}, {'type': 14, 'size': 4, 'rc': 65, 'value': units},
                    {'type': 15, 'size': 1, 'rc': 66, 'value': depth_rc}]
     elif draw(st.booleans()):
@@ -519,7 +529,7 @@ def log_passes(draw, max_channels=6, max_frames=60, allow_dipmeter=True, x_units
                 fr.append((d['rc'], safe_words(draw, d['rc'], d['samples'] * d['bursts'])))
         frames.append(fr)
     return {'indirect': indirect, 'xs': xs, 'depth_rc': depth_rc, 'units': units, 'blocks': blocks, 'dsbs': dsbs, 'frames': frames,
-            'per_record': per, 'data_type': blocks[0]['value']}
+            'per_record': per, 'data_type': blocks[0]['value'], 'x_step': x_step, 'spacing_units': spacing_units}
 
 
 def log_pass_records(lp):
@@ -531,7 +541,7 @@ def log_pass_records(lp):
     for n in lp['per_record']:
         ind = None
         if lp['indirect']:
-            x = lp['xs']['x0'] + sign * lp['xs']['spacing'] * f
+            x = lp['xs']['x0'] + sign * lp.get('x_step', lp['xs']['spacing']) * f
             ind = (lp['depth_rc'], rc_word_for_value(lp['depth_rc'], x))
         recs.append(encode_data_record(lp['data_type'], ind, lp['frames'][f:f + n]))
         info.append((f, n))
@@ -541,7 +551,7 @@ def log_pass_records(lp):
 
 @st.composite
 def lis_files(draw, max_passes=3, max_frames=60, tif_options=('none', 'normal', 'reversed'), allow_dipmeter=True, tables=True,
-              pairs=False, empty_passes=False, x_units=None):
+              pairs=False, empty_passes=False, x_units=None, spacing_pairs=False):
     """A whole LIS file model: [reel/tape header] (file header, tables, log pass, tables, file trailer)+ [tape/reel trailer]."""
     cfg = draw(phys_cfgs(tif_options=tif_options))
     if cfg['pr_len'] < 16:
@@ -569,14 +579,14 @@ def lis_files(draw, max_passes=3, max_frames=60, tif_options=('none', 'normal', 
             items.append(('pass', dict(e, frames=[], per_record=[])))
         if pairs and draw(st.integers(0, 3)) == 0:
             # a normal data (type 0) and an alternate data (type 1) log pass in ONE logical file, their data records interleaved
-            a = draw(log_passes(max_frames=max_frames, allow_dipmeter=allow_dipmeter, x_units=x_units))
-            b = draw(log_passes(max_frames=max_frames, allow_dipmeter=allow_dipmeter, x_units=x_units))
+            a = draw(log_passes(max_frames=max_frames, allow_dipmeter=allow_dipmeter, x_units=x_units, spacing_pairs=spacing_pairs))
+            b = draw(log_passes(max_frames=max_frames, allow_dipmeter=allow_dipmeter, x_units=x_units, spacing_pairs=spacing_pairs))
             a = dict(a, data_type=0, blocks=[dict(x, value=0) if x['type'] == 1 else x for x in a['blocks']])
             b = dict(b, data_type=1, blocks=[dict(x, value=1) if x['type'] == 1 else x for x in b['blocks']])
             order = draw(st.lists(st.booleans(), min_size=len(a['per_record']) + len(b['per_record']), max_size=len(a['per_record']) + len(b['per_record'])))
             items.append(('pass_pair', {'a': a, 'b': b, 'order': order, 'b_first': draw(st.booleans())}))
         else:
-            items.append(('pass', draw(log_passes(max_frames=max_frames, allow_dipmeter=allow_dipmeter, x_units=x_units))))
+            items.append(('pass', draw(log_passes(max_frames=max_frames, allow_dipmeter=allow_dipmeter, x_units=x_units, spacing_pairs=spacing_pairs))))
         if tables and draw(st.integers(0, 3)) == 0:
             items.append(('table', {'lr_type': 34, 'name': b'CONS', 'columns': [b'MNEM', b'VALU'], 'rows': []}))
         if draw(st.integers(0, 9)) != 0:
